@@ -139,8 +139,20 @@ func (t *c17) dnsCase(r *rand.Rand) {
 	m := refdec.NewDNSMsg(uint16(r.Intn(65536)), 0x8180)
 	m.Q = []refdec.DNSQ{{Name: truth.q, Type: 1, Class: 1}}
 	nrec := 1 + r.Intn(6)
+	// one message in eight is a large response (many records, long names that first appear late in the message), so that
+	// compression pointers target offsets beyond the first kilobyte
+	large := r.Intn(8) == 0
+	if large {
+		nrec = 14 + r.Intn(16)
+		for k := 0; k < 5; k++ {
+			names = append(names, exactName(r, 50+r.Intn(60)))
+		}
+	}
 	for i := 0; i < nrec; i++ {
 		owner := names[r.Intn(len(names))]
+		if large {
+			owner = names[r.Intn(min(len(names), 2+i/3))] // later names are introduced late and then referenced
+		}
 		switch r.Intn(7) {
 		case 0, 1:
 			a, _ := t.e.IP4(r)
@@ -174,6 +186,35 @@ func (t *c17) dnsCase(r *rand.Rand) {
 			m.An = append(m.An, refdec.DNSRR{Name: owner, Type: refdec.TypeTXT, Class: 1, TTL: 5, RData: []byte{3, 'a', '=', 'b'}})
 		}
 	}
+	if large {
+		// keep the message inside one Ethernet frame: drop records from the end until it fits
+		for len((&refdec.DNSBuilder{Compress: true}).Build(m)) > 1400 && len(m.An) > 1 {
+			m.An = m.An[:len(m.An)-1]
+		}
+		truth.a, truth.aaaa, truth.cname, truth.ptr = map[netip.Addr]string{}, map[netip.Addr]string{}, map[string]string{}, map[string]netip.Addr{}
+		for _, rr := range m.An {
+			switch rr.Type {
+			case refdec.TypeA:
+				if _, ok := truth.a[rr.Addr]; !ok {
+					truth.a[rr.Addr] = rr.Name
+				}
+			case refdec.TypeAAAA:
+				if _, ok := truth.aaaa[rr.Addr]; !ok {
+					truth.aaaa[rr.Addr] = rr.Name
+				}
+			case refdec.TypeCNAME:
+				if _, ok := truth.cname[rr.Name]; !ok {
+					truth.cname[rr.Name] = rr.Target
+				}
+			case refdec.TypePTR:
+				if _, ok := truth.ptr[rr.Target]; !ok {
+					var x [4]int
+					fmt.Sscanf(rr.Name, "%d.%d.%d.%d.in-addr.arpa", &x[3], &x[2], &x[1], &x[0])
+					truth.ptr[rr.Target] = netip.AddrFrom4([4]byte{byte(x[0]), byte(x[1]), byte(x[2]), byte(x[3])})
+				}
+			}
+		}
+	}
 	truth.nAns = len(m.An)
 	// records in the other sections must not be stored (and must not disturb the answers)
 	if r.Intn(3) == 0 {
@@ -182,6 +223,9 @@ func (t *c17) dnsCase(r *rand.Rand) {
 		m.Ar = append(m.Ar, refdec.DNSRR{Name: "a.ns.example.net", Type: refdec.TypeA, Class: 1, TTL: 9, Addr: a})
 	}
 	builder := r.Intn(3)
+	if large {
+		builder = 1 + r.Intn(2) // the uncompressed form would not fit the frame
+	}
 	var wire []byte
 	switch builder {
 	case 0:
@@ -208,6 +252,12 @@ func (t *c17) dnsCase(r *rand.Rand) {
 	frame, _, err := t.frame(53, uint16(1024+r.Intn(60000)), wire, t.e.RouterMAC)
 	if err != nil {
 		return
+	}
+	if len(wire) > 1024 {
+		c.Obs("dns_messages_over_1k", 1)
+		if far := farPointers(wire); far > 0 {
+			c.Obs("dns_compression_pointers_beyond_1k", int64(far))
+		}
 	}
 	var perr error
 	if pi := c.Guard("C08", cs, func() { _, perr = t.h.ProcessDNS(frame); t.rx.scribble() }); pi != nil {
@@ -274,6 +324,17 @@ func (t *c17) dnsCase(r *rand.Rand) {
 	if c.WantSample() && len(wire) < 120 {
 		c.Sample(map[string]any{"message_hex": wk.Hex(wire), "question": truth.q, "A": len(truth.a), "AAAA": len(truth.aaaa), "CNAME": len(truth.cname), "PTR": len(truth.ptr)})
 	}
+}
+
+// farPointers counts two-byte sequences that look like compression pointers to an offset of 1024 or more (0xc4.. and up): an
+// upper bound, good enough to show the workload reaches them.
+func farPointers(wire []byte) (n int) {
+	for i := 1024; i+1 < len(wire); i++ {
+		if wire[i] >= 0xc4 && int(wire[i]&0x3f)<<8|int(wire[i+1]) < i {
+			n++
+		}
+	}
+	return n
 }
 
 // illFormed: names with pointer loops, pointers beyond the message, over-long labels, truncated records must be rejected.
